@@ -437,4 +437,29 @@ theorem rleGetRunCount_eq (bs : List Nat) (hb : ∀ b ∈ bs, b < 256) (hlen : b
   rw [hp']
   simp
 
+
+/-! ### varintRLEEncodeWithHeader -/
+
+/-- **`varintRLEEncodeWithHeader`**: the tagged count, then the body, at consecutive indices; the struct's
+    encodedSize is overwritten with the total -/
+theorem rleEncodeWithHeader_eq (xs : List Nat) (hx : ∀ x ∈ xs, x < 2 ^ 64) (hn : xs.length < 2 ^ 60) (given : Bool)
+    (fuel : Nat) (hf : xs.length + 2 ≤ fuel) :
+    rleEncodeWithHeader fuel (Bridge.Tagged.bufOf xs) xs.length given =
+      some ((RLE.encH xs).length,
+            if given then some (RLE.encH xs).length else none,
+            if given then some xs.length else none,
+            if given then some (RLE.runCount xs) else none,
+            if given then some 0 else none,
+            storesFrom 0 (RLE.encH xs)) := by
+  unfold rleEncodeWithHeader
+  rw [rleEncode_eq xs hx hn given fuel hf, taggedPut64_stores xs.length (by omega)]
+  simp only [shiftW_storesFrom, Nat.add_zero]
+  have hb := RLE.enc_le xs
+  have hl := Tagged.len_bounds xs.length
+  have hlen : ((((((Tagged.enc xs.length).length + (RLE.enc xs).length : Nat) : Int) - ((0 : Nat) : Int))) %
+      (2 ^ 64 : Int)).toNat = (Tagged.enc xs.length).length + (RLE.enc xs).length := by
+    rw [Tagged.enc_length]; omega
+  simp only [hlen]
+  cases given <;> simp [RLE.encH, storesFrom_append]
+
 end Varint.Bridge.RLE
